@@ -413,3 +413,124 @@ fn verif_c11_full_query_x1() {
     }
     rec.finish();
 }
+
+// ---------------------------------------------------------------------------------------------
+// the duplicate set itself, against a reference set of full 16-byte tags
+// ---------------------------------------------------------------------------------------------
+
+struct RawTag([u8; 16]);
+impl crate::report::hybrid::UniqueBytes for RawTag {
+    fn unique_bytes(&self) -> [u8; 16] {
+        self.0
+    }
+}
+
+/// Tags built to be "almost equal": a base tag with one byte / one bit changed at any of the 16 positions, equal low or
+/// high halves, byte-swapped halves. Ciphertext tags are random, so a full query never produces such neighbours.
+fn neighbour_tags(r: &mut VRng) -> Vec<[u8; 16]> {
+    let mut base = [0u8; 16];
+    base.copy_from_slice(&r.bytes(16));
+    let mut v = vec![base];
+    for pos in 0..16 {
+        let mut t = base;
+        t[pos] ^= 1 << r.below(8);
+        v.push(t);
+    }
+    let mut t = base;
+    t[8..].copy_from_slice(&r.bytes(8)); // same low half
+    v.push(t);
+    let mut t = base;
+    t[..8].copy_from_slice(&r.bytes(8)); // same high half
+    v.push(t);
+    let mut t = base;
+    t.rotate_left(8);
+    v.push(t);
+    for _ in 0..r.below(12) {
+        let mut t = [0u8; 16];
+        t.copy_from_slice(&r.bytes(16));
+        v.push(t);
+    }
+    v.sort_unstable();
+    v.dedup();
+    v
+}
+
+/// `UniqueTagValidator` (check_duplicates in batches of every size, check_duplicate singly) in lock-step with a
+/// reference `BTreeSet<[u8; 16]>`: an input is refused iff it repeats a tag of the same batch or of an earlier one.
+#[test]
+fn verif_c11_tag_set_model() {
+    use crate::report::hybrid::UniqueTagValidator;
+    let env = vlib::env();
+    let mut rec = Recorder::new("C11", "verif_c11_tag_set_model");
+    let n_cases = env.pick(20_000, 400_000);
+    for idx in 0..n_cases {
+        if !env.mine(idx) {
+            continue;
+        }
+        let mut r = VRng::new(env.seed ^ 0xc11d, idx as u64);
+        let pool = neighbour_tags(&mut r);
+        let mut reference: BTreeSet<[u8; 16]> = BTreeSet::new();
+        let mut val = UniqueTagValidator::new(pool.len());
+        let with_dup = idx % 3 != 0;
+        let n_batches = 1 + r.below(4) as usize;
+        let mut order: Vec<usize> = (0..pool.len()).collect();
+        r.shuffle(&mut order);
+        let mut next = 0usize;
+        let mut history: Vec<Vec<String>> = Vec::new();
+        for b in 0..n_batches {
+            let size = (r.below(9) as usize).min(pool.len() - next);
+            let mut batch: Vec<[u8; 16]> = order[next..next + size].iter().map(|i| pool[*i]).collect();
+            next += size;
+            let last = b + 1 == n_batches;
+            let mut expect_dup = false;
+            if with_dup && last {
+                // one repeated tag: of this batch or of an earlier one, inserted at any position
+                let candidates: Vec<[u8; 16]> = reference.iter().copied().chain(batch.iter().copied()).collect();
+                if !candidates.is_empty() {
+                    let t = *r.choose(&candidates);
+                    let pos = r.below(batch.len() as u64 + 1) as usize;
+                    batch.insert(pos, t);
+                    expect_dup = true;
+                }
+            }
+            history.push(batch.iter().map(|t| vlib::hex(t)).collect());
+            let items: Vec<RawTag> = batch.iter().map(|t| RawTag(*t)).collect();
+            let single = items.len() == 1 && r.bool();
+            rec.eval();
+            let got = vlib::catch(|| if single { val.check_duplicate(&items[0]) } else { val.check_duplicates(&items) });
+            let kind = match (&got, expect_dup) {
+                (Ok(Ok(())), false) | (Ok(Err(_)), true) => None,
+                (Ok(Ok(())), true) => Some("duplicate_tag_accepted"),
+                (Ok(Err(_)), false) => Some("distinct_tags_rejected"),
+                (Err(_), _) => Some("panic"),
+            };
+            if let Some(kind) = kind {
+                let sorted_rank_parity = if expect_dup {
+                    let mut s = batch.clone();
+                    s.sort_unstable();
+                    s.windows(2).position(|w| w[0] == w[1]).map(|p| p % 2)
+                } else {
+                    None
+                };
+                rec.violation(
+                    "the duplicate set disagrees with a reference set of full 16-byte tags",
+                    json!({"kind": kind, "api": if single { "check_duplicate" } else { "check_duplicates" }}),
+                    json!({"case": idx, "batches": history, "rank_parity_of_repeated_tag_in_sorted_batch": sorted_rank_parity}),
+                );
+                break;
+            }
+            if expect_dup {
+                rec.count("tag_set_duplicates_rejected");
+                break; // the validator's state after an error is not specified
+            }
+            rec.count("tag_set_distinct_batches_accepted");
+            rec.add("tag_set_near_equal_tags_accepted", batch.len() as u64);
+            reference.extend(batch.iter().copied());
+        }
+        rec.distinct(&(pool.len(), n_batches, with_dup, idx % 64));
+        if rec.want_sample() && idx % 997 == 5 {
+            rec.sample(json!({"case": idx, "batches": history, "ends_with_duplicate": with_dup}));
+        }
+    }
+    rec.finish();
+}
